@@ -328,7 +328,7 @@ fn execute(c: &Case) -> Observed {
                 .collect(),
             pool,
         });
-        // virtual-time watchdog: a wedged dial shows up as Err 99
+        // virtual-time watchdog: a wedged dial shows up as Err 99 (printed as Panic)
         let res = tokio::time::timeout(
             Duration::from_secs(24 * 3600),
             Dialer::dial(&resolver, &url, prefer6),
@@ -378,6 +378,8 @@ fn run(raw: &str) -> (String, String) {
             let log = coq_list(o.log.iter(), |(t, ip)| format!("({t}, {})", addr_term(*ip)));
             let res = match o.result {
                 Ok(ip) => format!("(Ok {})", addr_term(ip)),
+                // 99 = watchdog (wedged), 98 = returned stream not one of ours
+                Err(code) if code >= 98 => "Panic".to_string(),
                 Err(code) => format!("(Err {code})"),
             };
             format!("({log}, {res}, {})", o.end)
